@@ -362,6 +362,82 @@ def case_rg_exact(log, kind, order, msbar):
     _validate_rg(log, kind, order, msbar)
 
 
+def case_scheme(log):
+    """MSBAR vs POLE through the tower entry point the evolution uses (A_singlet(matching_order, n, nf, L, is_msbar)).
+    With m_pole = m(m) (1 + delta a_s) the pole logarithm is L_pole = L - 2 delta a_s, hence  A^(2)|MSBAR = A^(2)|POLE - 2 delta dA^(1)/dL
+    (gluon and light-quark columns; A^(1) unchanged).  delta is fixed by the decoupling relation the property takes as given:
+    re-expanding a_nf(a, L_pole) gives d20|MSBAR - d20|POLE = -2 delta d11, i.e. 2 delta = (d20|MSBAR - d20|POLE)/(-d11) (= 8 CF)."""
+    om = E.mod(OME["sl"])
+    import eko.couplings as cp
+
+    log.encode(om.A_singlet, om.as2.A_singlet, cp.compute_matching_coeffs_down)
+    log.register_replay("scheme.sl.as2", (MOD, "replay_scheme", {}), _sampler)
+
+    def run():
+        E.unpatch()
+        E.patch()
+        stub = E.install_psi()
+        N = SR.var("N")
+        assume(N - 2, ">0")
+        nf = SR.var("nf")
+        E.box(nf, 3, 5)
+        L = SR.var("L", seed=True)
+        E.box(L, -3, 3)
+        dP = cp.compute_matching_coeffs_down("POLE", 3)
+        dM = cp.compute_matching_coeffs_down("MSBAR", 3)
+        two_delta = SR(Q(Poly.const(float(dM[2][0])))) - float(dP[2][0])
+        two_delta = two_delta / (-float(dP[1][1]))
+        log.assume("mass relation from the decoupling coefficients: 2 delta = (d20|MSBAR - d20|POLE)/(-d11) = %s" % float(two_delta))
+        for order in (2,):
+            AP = [cplx(a) for a in om.A_singlet((order, 0), N, nf, L, False)]
+            AM = [cplx(a) for a in om.A_singlet((order, 0), N, nf, L, True)]
+            dA1 = tangent(AP[0])
+            for i in range(3):
+                for j in range(3):
+                    v = prove_zero(AM[0][i, j] - AP[0][i, j], "A^(1)[%s,%s]: MSBAR == POLE (tower, matching order %d)" % ("gqH"[i], "gqH"[j], order))
+                    E.decide(log, v, "scheme.sl.as1", replay=(MOD, "replay_scheme", {}), sampler=_sampler)
+                    if j == 2:
+                        continue  # heavy-quark-initiated O(a_s^2) elements are not implemented in either scheme
+                    v = prove_zero(AM[1][i, j] - AP[1][i, j] + dA1[i, j] * two_delta,
+                                   "A^(2)[%s,%s]|MSBAR == A^(2)|POLE - 2 delta dA^(1)/dL through A_singlet(matching_order=(2,0), .., is_msbar)" % ("gqH"[i], "gqH"[j]))
+                    E.decide(log, v, "scheme.sl.as2", replay=(MOD, "replay_scheme", {}), sampler=_sampler)
+        E.twin(log)
+        for s_ in sorted(stub.instances):
+            log.assume("axiom instance: " + s_)
+
+    _r, pm = explore(run)
+    log.path_stats(pm)
+
+
+def replay_scheme(point):
+    """real tower: A_singlet(.., is_msbar=True) - A_singlet(.., False) against -2 delta dA^(1)/dL with the literature constant
+    m_pole/m(m) = 1 + (4/3)(alpha_s/pi) = 1 + 4 CF a_s (Gray, Broadhurst, Grafe, Schilcher 1990), dA^(1)/dL by finite differences"""
+    import numpy as np
+    import ekore.operator_matrix_elements.unpolarized.space_like as om
+
+    nf = int(round(float(point.get("nf", 4))))
+    L0 = float(point.get("L", 1.0))
+    x = float(point.get("N", 4.2))
+    if x <= 2 or not (3 <= nf <= 5):
+        return None
+    two_delta = 2 * 4 * 4.0 / 3.0
+    for Nz in (complex(x), complex(x, 2.5)):
+        for mo in ((2, 0), (3, 0)):
+            AP = om.A_singlet(mo, Nz, nf, L0, False)
+            AM = om.A_singlet(mo, Nz, nf, L0, True)
+            d1 = (om.A_singlet((1, 0), Nz, nf, L0 + 0.5, False)[0] - om.A_singlet((1, 0), Nz, nf, L0 - 0.5, False)[0]) / 1.0
+            want = -two_delta * d1
+            for i in range(3):
+                for j in range(2):
+                    got = AM[1][i, j] - AP[1][i, j]
+                    if abs(got - want[i, j]) > 1e-8 * max(1.0, abs(want[i, j])):
+                        return {"detail": "A_singlet(%r, N=%r, nf=%d, L=%r): A^(2)[%d,%d]|MSBAR - A^(2)|POLE = %r but the mass relation requires -8 CF dA^(1)/dL = %r"
+                                % (mo, Nz, nf, L0, i, j, got, want[i, j])}
+            if abs(AM[0] - AP[0]).max() > 1e-12:
+                return {"detail": "A^(1) differs between MSBAR and POLE at N=%r" % (Nz,)}
+    return None
+
+
 def _validate_rg(log, kind, order, msbar):
     """translator validation of the pieces: symbolic OME / anomalous dimensions at points == real float code"""
     E.unpatch()
@@ -557,7 +633,9 @@ def main():
     chk.bounds = ["sum rules: N = 2 and 1 concrete (N = 2+1e-6 for the O(a_s^3) quark column, as the repo's test), nf real in [3,5], L real in [-3,3], orders 1-3, POLE and MSBAR (orders 1-2)",
                   "RG structure orders 1-2: N (> 2), nf in [3,5], L in [-3,3] real symbols (exact identities: they hold for complex N); unpolarised (POLE, MSBAR), polarised (order 2), time-like (order 1)",
                   "RG structure order 3: unpolarised POLE at N in %r%s, nf in [3,5], L in [-3,3]; tolerances rg3.* of the table" % (NS3, " and 2 complex points" if tier == "thorough" else ""),
-                  "gluon and light-quark columns; the heavy-quark-initiated column only at O(a_s) (unpolarised)"]
+                  "gluon and light-quark columns; the heavy-quark-initiated column only at O(a_s) (unpolarised)",
+                  "mass scheme: A^(2)|MSBAR - A^(2)|POLE = -2 delta dA^(1)/dL through the tower A_singlet(matching_order, n, nf, L, is_msbar) (N, nf, L symbolic), "
+                  "2 delta from the POLE/MSBAR decoupling coefficients"]
     chk.out_of_claim = ["heavy-quark-initiated elements A_gH, A_qH, A_HH beyond O(a_s) and a valence-type A_Hq^(3) induced by gamma_ns,s: not implemented in eko (documented in doc/source/theory/Matching.rst)",
                         "the L-independent parts of the matching elements (not constrained by RG invariance) beyond the sum rules; accuracy of the parametrised O(a_s^3) terms beyond the tolerance table",
                         "the limit N -> 2 of A_gq^(3) (removable pole) is approached at N = 2+1e-6 only; MSBAR at O(a_s^3) is not implemented in eko"]
@@ -568,6 +646,7 @@ def main():
     chk.case("sumrules", case_sumrules)
     chk.case("rg.sl.pole", case_rg_exact, kind="sl", order=2, msbar=False)
     chk.case("rg.sl.msbar", case_rg_exact, kind="sl", order=2, msbar=True)
+    chk.case("scheme.sl", case_scheme)
     chk.case("rg.pol", case_rg_exact, kind="pol", order=2, msbar=False)
     chk.case("rg.tl", case_rg_exact, kind="tl", order=1, msbar=False)
     n3 = NS3[:3] if tier == "quick" else NS3
